@@ -23,6 +23,8 @@
 //	pt:F:T  statement insertion point: F is L (inside a loop of the same function) or -, T the return
 //	        type of the innermost enclosing function or closure
 //	asg:T   value assigned to a variable/field/element/annotated let of type T
+//	el:T    second or later element of a list literal whose elements have type T
+//	idx:T   index expression (T int for lists and strings, str for objects)
 //	cond    condition of if/while
 //	br:T    value of one branch of if/else, try/catch or of a match arm (all branches have type T)
 //	els     the ` else {…}` part of a non-null if;  dflt: the default arm of a non-null match
@@ -128,7 +130,7 @@ func ParseModule(module, marked string, nextID *int) (plain string, sites []Site
 				return "", nil, nil, fmt.Errorf("%s:%d: %v", module, line, e)
 			}
 			f.site.Start = out.Len()
-			f.site.Ctx = strings.Join(ctx, "/")
+			f.site.Ctx = strings.Join(uniq(ctx), "/")
 			if f.site.Ctx == "" {
 				f.site.Ctx = "top"
 			}
@@ -236,7 +238,7 @@ func parseHeader(h string, s *Site) error {
 	s.Kind = kind
 	typ := ""
 	switch kind {
-	case "opd", "neg", "not", "bop", "aop", "arg", "ret", "tail", "asg", "br", "ty":
+	case "opd", "neg", "not", "bop", "aop", "arg", "ret", "tail", "asg", "br", "ty", "el", "idx":
 		typ = rest
 		if typ == "" {
 			return fmt.Errorf("marker %q needs a type", kind)
@@ -329,4 +331,17 @@ func Parse(modules map[string]string) (Parsed, error) {
 		p.Expects = append(p.Expects, exp...)
 	}
 	return p, nil
+}
+
+// uniq removes repeated labels (first occurrence wins).
+func uniq(xs []string) []string {
+	seen := map[string]bool{}
+	var out []string
+	for _, x := range xs {
+		if !seen[x] {
+			seen[x] = true
+			out = append(out, x)
+		}
+	}
+	return out
 }
